@@ -6,3 +6,4 @@ import NTV.Proofs.C04
 #print axioms NTV.C04.smart_const_const
 #print axioms NTV.C04.smart_const_right
 #print axioms NTV.C04.smart_const_left
+#print axioms NTV.C04.smart_is_sylvester_partial
